@@ -112,7 +112,8 @@ def gen(ctx):
                         for prio in ((0, 1, 2) if sym == 'rm' else (0,)):
                             add(sym, level, kanji, prio, pl)
     ctx.c05 = meta
-    # function-level correspondence (implementation against model only): Segment.length and calcVersion of the three
+    # function-level correspondence (implementation against model only; OFF by default, VERIF_FUNC_LEVEL=1 switches it on:
+    # an unobservable internal change must not be reported): Segment.length and calcVersion of the three
     # packages on every mode value 0..9 / 255, versions incl. out-of-range ones, lengths around the count limits
     F = []
     vers = {'qr': [-1, 0, 1, 2, 9, 10, 11, 26, 27, 28, 39, 40, 41], 'mq': [-1, 0, 1, 2, 3, 4, 5], 'rm': [-1, 0, 1, 5, 10, 16, 17, 30, 31, 32]}
@@ -143,7 +144,8 @@ def gen(ctx):
                     F.append('rm.calcver %d %d %s' % (level, prio, body))
             else:
                 F.append('%s.calcver %d %s' % (sym, level, body))
-    return L + F
+    import os
+    return L + (F if os.environ.get('VERIF_FUNC_LEVEL') else [])
 
 
 def oracle(ctx, lines, out):
